@@ -2,6 +2,7 @@
 EXTENDS Sched
 O(op, d, fd, lk) == [op |-> op, d |-> d, fd |-> fd, sub |-> <<>>, v |-> "-", lk |-> lk]
 Call(sub, v) == [op |-> "Call", d |-> 0, fd |-> "-", sub |-> sub, v |-> v, lk |-> 0]
+Call2(v) == [op |-> "Call2", d |-> 0, fd |-> "-", sub |-> <<>>, v |-> v, lk |-> 0]   \* nested call inside a sub-function
 Resched == O("Resched", 0, "-", 0)
 SleepN(d) == O("SleepN", d, "-", 0)
 SleepOp(d) == O("SleepOp", d, "-", 0)
@@ -23,7 +24,14 @@ SeqsUpTo(S, n) == UNION {[1..k -> S] : k \in 0..n}
 \* general vocabulary (no locks)
 OpsA == {Resched, SleepN(1), SleepOp(0), SelT(2), SelFD("a", NoTO), SelFD("a", 1), Block, Raise,
          Call(<<SleepOp(1)>>, "ret"), Call(<<>>, "throw"), Call(<<>>, "end"),
-         Call(<<SleepOp(1)>>, "throw"), Call(<<SleepOp(0), SleepOp(1)>>, "end")}
+         Call(<<SleepOp(1)>>, "throw"), Call(<<SleepOp(0), SleepOp(1)>>, "end"),
+         Call(<<Call2("throw")>>, "ret"), Call(<<Call2("ret"), SleepOp(1)>>, "throw")}
+\* sub-functions that call sub-functions: every result x every continuation of the caller
+OpsN == {Call(<<Call2(v2)>>, v) : v2 \in {"ret", "throw", "end"}, v \in {"ret", "throw", "end"}}
+        \cup {Call(<<SleepOp(0), Call2("throw"), SleepOp(1)>>, "ret"), Call(<<Call2("throw"), Call2("ret")>>, "end"),
+              Resched, SleepN(1)}
+ProgsN1 == SeqsUpTo(OpsN, 1)
+ProgsN2 == SeqsUpTo(OpsN, 2)
 ProgsA1 == SeqsUpTo(OpsA, 1)
 ProgsA2 == SeqsUpTo(OpsA, 2)
 OpsQ == {Resched, SleepN(1), SelT(2), SelFD("a", 1), Block, Raise, Call(<<SleepOp(1)>>, "ret"), Call(<<>>, "throw"),
